@@ -257,6 +257,12 @@ func recordTime(args []string) int {
 		t := base.Add(12 * time.Hour)
 		_, off1 := t.Zone()
 		dy, dm, dd := int64(rng.Intn(9)-4), int64(rng.Intn(61)-30), int64(rng.Intn(801)-400)
+		if i%3 == 0 {
+			dy, dm = 0, 0 // a shift by days only (across offset changes of the zone: the civil time of day stays)
+			if i%12 == 0 && t.Year() > 700 && t.Year() < 9000 {
+				dd = int64(rng.Intn(400001) - 200000) // more days than 2^63 ns
+			}
+		}
 		if t.Year()+int(dy) < 2 || t.Year()+int(dy) > 9990 {
 			dy = 0
 		}
